@@ -82,6 +82,14 @@ let run_mv (toks : string list) : string =
                     | Some s' -> cstate := Some s'
                     | None -> cstate := None; bad := " MODEL-DISAGREE(faithful model: no result)")) in
     let i_ s = nat_of_int (int_of_string s) in
+    let reset_faithful d (p : mpoly) =
+      match !cstate with
+      | None -> ()
+      | Some (cord, cpool) ->
+        let terms = List.map (fun (m, c) -> (List.map (fun (x, e) -> (x, nat_of_int (int_of_n e))) m, c)) p in
+        (match c_of_terms k (rk_of cord) fuel terms with
+         | Some c -> cstate := Some (cord, set_nth d c cpool)
+         | None -> cstate := None) in
     let rec go = function
       | [] -> ()
       | ("add" | "sub" | "mul" | "addmul" | "submul" as o) :: d :: a :: b :: t ->
@@ -158,6 +166,74 @@ let run_mv (toks : string list) : string =
             | None -> cstate := None; bad := " MODEL-DISAGREE(faithful model: no result)")
          | None -> ());
         dump false; go t
+      | "obs" :: a :: t ->
+        Buffer.add_string buf " ;";
+        let (ord, pool) = !rstate in
+        let rk = rk_of ord in
+        let p = List.nth pool (int_of_string a) in
+        let b x = if x then "1" else "0" in
+        let lcn = match mp_lc_num rk fuel p with Some c -> c | None -> Z0 in
+        let vars = List.sort compare (List.map int_of_n (mp_vars p)) in
+        Buffer.add_string buf (Printf.sprintf "=L%sU%sM%sS%dC%s:%s:V%s#%d"
+          (b (mp_is_linear p)) (b (mp_is_univariate p)) (b (mp_is_monomial p)) (sgn_of_z lcn) (b (mp_lc_is_const rk p))
+          (string_of_z lcn) (String.concat "" (List.map (fun v -> string_of_int v ^ ",") vars)) (List.length vars));
+        Buffer.add_string buf (":K" ^ string_of_mpoly p);
+        if mp_is_monomial p then
+          Buffer.add_string buf (":T" ^ (match p with [] -> "0" | _ -> string_of_mpoly p));
+        dump false; go t
+      | "isas" :: a :: mask :: _vals :: t ->
+        Buffer.add_string buf " ;";
+        let (_, pool) = !rstate in
+        let mask = int_of_string mask in
+        let set (x : n) = (mask lsr (int_of_n x)) land 1 = 1 in
+        Buffer.add_string buf ("=" ^ string_of_bool01 (mp_is_assigned set (List.nth pool (int_of_string a))));
+        dump false; go t
+      | "touvm" :: a :: mask :: vals :: t ->
+        Buffer.add_string buf " ;";
+        let (ord, pool) = !rstate in
+        let rk = rk_of ord in
+        let p = List.nth pool (int_of_string a) in
+        let mask = int_of_string mask in
+        let set (x : n) = (mask lsr (int_of_n x)) land 1 = 1 in
+        let vs = Array.of_list (zlist vals) in
+        let rho (x : n) = let i = int_of_n x in if i < Array.length vs then vs.(i) else Z0 in
+        let top = mp_top rk p in
+        if List.exists (fun x -> Some x <> top && not (set x)) (mp_vars p) then Buffer.add_string buf "=skip"
+        else Buffer.add_string buf ("=" ^ str_udense (reduce_dense k (mp_to_upoly_m rk set rho p)));
+        dump false; go t
+      | "red" :: d :: a :: t ->
+        Buffer.add_string buf " ;";
+        let (ord, pool) = !rstate in
+        let p = List.nth pool (int_of_string a) in
+        if mp_top (rk_of ord) p = None then Buffer.add_string buf "=skip"
+        else begin
+          let r = mp_reductum (rk_of ord) p in
+          rstate := (ord, set_nth (i_ d) r pool);
+          reset_faithful (i_ d) r    (* not modelled in the faithful model: rebuilt from the reference value *)
+        end;
+        dump false; go t
+      | "gcoef" :: d :: a :: kk :: t ->
+        Buffer.add_string buf " ;";
+        let (ord, pool) = !rstate in
+        let p = List.nth pool (int_of_string a) in
+        let r = mp_get_coeff (rk_of ord) (n_of_string kk) p in
+        rstate := (ord, set_nth (i_ d) r pool);
+        reset_faithful (i_ d) r;
+        dump false; go t
+      | "mgcd" :: t1 :: t2 :: t ->
+        Buffer.add_string buf " ;";
+        if k <> None then Buffer.add_string buf "=skip"
+        else begin
+          let conv (m, c) = (mono_of_powers m, c) in
+          let (gm, gc) = term_gcd (conv (raw_term t1)) (conv (raw_term t2)) in
+          Buffer.add_string buf ("=" ^ string_of_z gc ^
+            String.concat "" (List.map (fun (x, e) -> "*x" ^ string_of_n x ^ "^" ^ string_of_n e) gm))
+        end;
+        dump false; go t
+      | "addmon2" :: d :: term :: t ->
+        Buffer.add_string buf " ;";
+        let (m, c) = raw_term term in
+        apply (OAddMon (i_ d, m, c)); dump false; go t
       | o :: _ -> Buffer.add_string buf (" ;UNKNOWN-OP " ^ o)
     in
     go ops;
@@ -187,6 +263,7 @@ let run_uv (toks : string list) : string =
     dump true;
     let ix s = int_of_string s in
     let put d l u = (!rpool).(d) <- pnorm (reduce_dense k l); (!upool).(d) <- u in
+    let put_ref d l = let l' = pnorm (reduce_dense k l) in (!rpool).(d) <- l'; (!upool).(d) <- u_construct k l' in
     let rec go = function
       | [] -> ()
       | ("add" | "sub" | "mul" as o) :: d :: a :: b :: t ->
@@ -253,6 +330,65 @@ let run_uv (toks : string list) : string =
                  | Some u when str_usparse u = str_udense p -> ()
                  | _ -> bad := " MODEL-DISAGREE(to_polynomial/to_univariate round trip in the faithful model)")
          | None -> bad := " MODEL-DISAGREE(faithful model: no result)");
+        dump false; go t
+      | "sgi" :: a :: x :: t ->
+        Buffer.add_string buf " ;";
+        Buffer.add_string buf ("=" ^ string_of_int (sgn_of_z (psgn_at_int k (!rpool).(ix a) (z_of_string x))));
+        dump false; go t
+      | "sgq" :: a :: num :: den :: t ->
+        Buffer.add_string buf " ;";
+        (match q_canon (z_of_string num, z_of_string den) with
+         | None -> Buffer.add_string buf "=SKIP"
+         | Some (xa, xb) ->
+           let p = (!rpool).(ix a) in
+           let s1 = sgn_of_z (psgn_at_rat p xa xb) and s2 = sgn_of_z (q_sgn (u_eval_rat p (xa, xb))) in
+           Buffer.add_string buf ("=" ^ string_of_int s1);
+           if s1 <> s2 then bad := " MODEL-DISAGREE(sgn_at_rational: homogeneous evaluation vs Horner model)");
+        dump false; go t
+      | "sgd" :: a :: num :: e :: t ->
+        Buffer.add_string buf " ;";
+        let x = dy_normalize { da = z_of_string num; dn = n_of_string e } in
+        let p = (!rpool).(ix a) in
+        let s1 = sgn_of_z (psgn_at_rat p x.da (pow2 x.dn)) and s2 = sgn_of_z (dy_sgn (u_eval_dy p x)) in
+        Buffer.add_string buf ("=" ^ string_of_int s1);
+        if s1 <> s2 then bad := " MODEL-DISAGREE(sgn_at_dyadic_rational: homogeneous evaluation vs Horner model)";
+        dump false; go t
+      | "uobs" :: a :: t ->
+        Buffer.add_string buf " ;";
+        let p = (!rpool).(ix a) in
+        let ct = match p with c :: _ when c <> Z0 -> string_of_z c | [] -> "0" | _ -> "none" in
+        let lc = plc p in
+        let b x = if x then "1" else "0" in
+        Buffer.add_string buf (Printf.sprintf "=c%s:l%s:z%so%sm%s" ct (string_of_z lc) (b (p = []))
+          (b (p = [z_of_int 1])) (b (lc = z_of_int 1)));
+        dump false; go t
+      | "monic" :: d :: a :: t ->
+        Buffer.add_string buf " ;";
+        (match pmake_monic k (!rpool).(ix a) with
+         | None -> Buffer.add_string buf "=skip"
+         | Some q -> put_ref (ix d) q);
+        dump false; go t
+      | "monici" :: a :: t ->
+        Buffer.add_string buf " ;";
+        (match pmake_monic k (!rpool).(ix a) with
+         | None -> Buffer.add_string buf "=skip"
+         | Some q -> put_ref (ix a) q);
+        dump false; go t
+      | "negi" :: a :: t -> Buffer.add_string buf " ;"; put (ix a) (pneg (!rpool).(ix a)) (u_neg k (!upool).(ix a)); dump false; go t
+      | "rev" :: a :: t -> Buffer.add_string buf " ;"; put_ref (ix a) (preverse (!rpool).(ix a)); dump false; go t
+      | "sxn" :: d :: a :: t -> Buffer.add_string buf " ;"; put_ref (ix d) (psubst_neg (!rpool).(ix a)); dump false; go t
+      | "sxp" :: a :: e :: t -> Buffer.add_string buf " ;"; put_ref (ix a) (psubst_pow (nat_of_int (int_of_string e)) (!rpool).(ix a)); dump false; go t
+      | "cpow" :: d :: deg :: c :: t -> Buffer.add_string buf " ;"; put_ref (ix d) (ppower (nat_of_int (int_of_string deg)) (z_of_string c)); dump false; go t
+      | ("cint" | "clong") :: d :: l :: t -> Buffer.add_string buf " ;"; put_ref (ix d) (zlist l); dump false; go t
+      | "divdeg" :: d :: a :: e :: t ->
+        Buffer.add_string buf " ;";
+        let aa = int_of_string e and p = (!rpool).(ix a) in
+        if aa <= 1 || not (pdiv_degrees_ok (nat_of_int aa) p) then Buffer.add_string buf "=skip"
+        else put_ref (ix d) (pdiv_degrees (nat_of_int aa) p);
+        dump false; go t
+      | ("setring" | "copyk") :: a :: m2 :: t ->
+        Buffer.add_string buf " ;";
+        Buffer.add_string buf ("=1=" ^ str_udense (pnorm (reduce_dense (ring_of m2) (!rpool).(ix a))));
         dump false; go t
       | o :: _ -> Buffer.add_string buf (" ;UNKNOWN-OP " ^ o)
     in
